@@ -402,3 +402,45 @@ func TestReproK25_KeyOnlyModeReopenWithSetListZSet(t *testing.T) {
 		}()
 	}
 }
+
+// K26: a segment filled to its last byte by a record without a value (the delete marker of Tx.Delete):
+// the decoder still issued a zero-length read for the value at offset == SegmentSize, which the mapped
+// reader refuses; every Open through MMap (the default StartFileLoadingMode) failed.
+func TestReproK26_FullSegmentEndingWithEmptyValue(t *testing.T) {
+	for _, mode := range []EntryIdxMode{HintKeyValAndRAMIdxMode, HintKeyAndRAMIdxMode} {
+		dir := reproDir(t)
+		defer os.RemoveAll(dir)
+		// put: 42 + 1 + 1 + 10 = 54 ; delete marker: 42 + 1 + 1 = 44 ; segment = 98
+		d := reproOpen(t, dir, mode, 98, FileIO)
+		if err := d.Update(func(tx *Tx) error { return tx.Put("b", []byte("k"), make([]byte, 10), 0) }); err != nil {
+			t.Fatal(err)
+		}
+		if err := d.Update(func(tx *Tx) error { return tx.Delete("b", []byte("k")) }); err != nil {
+			t.Fatal(err)
+		}
+		if err := d.Update(func(tx *Tx) error { return tx.Put("b", []byte("j"), []byte("v"), 0) }); err != nil {
+			t.Fatal(err)
+		}
+		d.Close()
+		o := DefaultOptions
+		o.Dir = dir
+		o.SegmentSize = 98
+		o.EntryIdxMode = mode
+		d2, err := Open(o)
+		if err != nil {
+			t.Fatalf("mode %d: reopen of a full segment that ends with a delete marker failed: %v", mode, err)
+		}
+		if err := d2.View(func(tx *Tx) error {
+			if e, err := tx.Get("b", []byte("j")); err != nil || string(e.Value) != "v" {
+				return fmt.Errorf("Get j: %v", err)
+			}
+			if _, err := tx.Get("b", []byte("k")); err == nil {
+				return fmt.Errorf("deleted key k is back")
+			}
+			return nil
+		}); err != nil {
+			t.Fatal(err)
+		}
+		d2.Close()
+	}
+}
